@@ -375,6 +375,10 @@ def _getcwd(ex, e, args, kwargs, p):
 @lib("copy.deepcopy", "A-cpython")
 def _deepcopy(ex, e, args, kwargs, p):
     # value semantics: an equal structure (axiom DEEPCOPY(x) == x); a fresh object for the frame engine
+    if len(args) > 1 or kwargs:
+        # a caller-supplied memo decides which sub-objects are shared instead of copied: equal in value, but NOT fresh
+        memo = asV(args[1]) if len(args) > 1 else asV(kwargs.get("memo", PyC(None)))
+        return [(app("DEEPCOPY_MEMO", asV(args[0]), memo), p)]
     return [(app("DEEPCOPY", asV(args[0])), p)]
 
 
